@@ -440,9 +440,9 @@ func c05Gen(t *rapid.T) c05Case {
 
 func TestC05Fillers(t *testing.T) {
 	kit.Run(t, kit.Spec[c05Case]{
-		Prop: "C05",
-		Rule: "filler kind x request (any IPv4 src/dst, 4- and 16-byte dst form, MACs, any dst port) x options (all 512 TCP flag sets exhaustively + drawn with drawn name order through the command's name->option table; TTL, IP flags 0..7, ICMP type/code, payload lengths 0..1460 incl. odd, proto/length overrides; through the command's option wiring or the exported options) x rand seed; both link modes per case. Oracle: verifkit/wire decoder + recomputed checksums. non-trivial: non-default option set; distinct by case",
-		Gen:  c05Gen,
+		Prop:  "C05",
+		Rule:  "filler kind x request (any IPv4 src/dst, 4- and 16-byte dst form, MACs, any dst port) x options (all 512 TCP flag sets exhaustively + drawn with drawn name order through the command's name->option table; TTL, IP flags 0..7, ICMP type/code, payload lengths 0..1460 incl. odd, proto/length overrides; through the command's option wiring or the exported options) x rand seed; both link modes per case. Oracle: verifkit/wire decoder + recomputed checksums. non-trivial: non-default option set; distinct by case",
+		Gen:   c05Gen,
 		Check: c05Check,
 		Exhaustive: func(yield func(c05Case) bool) {
 			for fl := 0; fl < 512; fl++ {
